@@ -5,6 +5,7 @@ import QclibModel.Proofs.UcgModel
 import QclibModel.Proofs.UcgComplex
 import QclibModel.Proofs.UcgCtrl
 import QclibModel.Proofs.UcgSimplify
+import QclibModel.Proofs.UcgSimplifyFin
 /-
   C12 — `UCGInitialize` / `UCGEInitialize`: `|t⟩ ↦ v` for every target index `t`; with
   `preserve_previous` and support on indices `≥ t` the basis states below `t` are kept up to a phase.
@@ -196,5 +197,59 @@ example : cnrm 3 (4 * Complex.I) = 5 := by
     simp [Complex.normSq_apply]; norm_num
   rw [cnrm, h, Real.sqrt_mul_self (by norm_num)]
   norm_num
+
+/-- **C12 (UCGE simplification, full statement; supersedes `C12_ucge_simplify_partial`).**  For
+every multiplexer list `mux` of length `2^m` handled at `tree_level = m + 1 ≤ n` (target wire
+`n - level`, controls `n-level+1 … n-1`) and an equality test that only accepts equal matrices:
+with `(dont_carry, kept) = _simplify(mux, level)` (the model of `_repetition_search` and of
+`[m for m in mux_cpy if m is not None]`), `mult_controls = [x for x in old_controls if x not in
+dont_carry]` and `ctrl_qc` the positions of the kept controls computed as in
+`UCGEInitialize._apply_diagonal` (`size_required = len(dont_carry) + len(controls)`):
+* `size_required` is the number `m` of controls of the level;
+* the shortened list, read through the kept control bits of the control value `k` (`gather`), **is
+  the original multiplexer entry**, `new_mux[gather ctrl_qc k] = mux[k]` for every `k < 2^m`;
+* hence the simplified uniformly controlled gate acts on every label exactly as the original one
+  (`muxApply`), for every target position `q` and every state `ψ`. -/
+theorem C12_ucge_simplify {R : Type} [Add R] [Mul R] (o : COps R) (eqv : Mat2 R → Mat2 R → Bool)
+    (hs : EqvSound eqv) (mux : Nat → Mat2 R) (m n level : Nat) (hlev : level = m + 1)
+    (hn : level ≤ n) :
+    let s := simplify eqv mux (2 ^ m) n level
+    let controls := keptControls (ctrlTarg n level).1 s.1
+    let pos := ctrlQc n (s.1.length + controls.length) controls
+    s.1.length + controls.length = m
+    ∧ (∀ k, k < 2 ^ m → newMux o mux s.2 (gather pos k) = mux k)
+    ∧ (∀ (q : Nat) (ψ : Vec R) (i : Nat), i / 2 ^ q / 2 < 2 ^ m →
+        muxApply (fun h => newMux o mux s.2 (gather pos h)) q ψ i = muxApply mux q ψ i) := by
+  intro s controls pos
+  obtain ⟨_, hlen, hg⟩ := simplify_gather o eqv hs mux m n level hlev hn
+  refine ⟨hlen, hg, fun q ψ i hi => ?_⟩
+  have e : newMux o mux s.2 (gather pos (i / 2 ^ q / 2)) = mux (i / 2 ^ q / 2) := hg _ hi
+  unfold muxApply
+  simp only [e]
+
+/-- **C12 (UCGE simplification at a level of the loop).**  For every level `1 ≤ level ≤ n` of
+`UCGEInitialize` (any `n`, `t`, children vector): the plan the executable model computes —
+`dont_carry`, kept indices, kept controls — satisfies `new_mux[gather ctrl_qc k] = mux[k]` for
+every control value `k` of the level's multiplexer. -/
+theorem C12_ucge_simplify_level {R : Type} [Add R] [Mul R] (o : COps R) (eqv : Mat2 R → Mat2 R → Bool)
+    (hs : EqvSound eqv) (n t level : Nat) (h1 : 1 ≤ level) (hn : level ≤ n) (children : Nat → R) :
+    let p := levelPlan o true eqv n t level children
+    ∀ k, k < p.muxLen →
+      newMux o p.mux p.kept (gather (ctrlQc n (p.dontCarry.length + p.controls.length) p.controls) k)
+        = p.mux k := by
+  intro p k hk
+  exact (C12_ucge_simplify o eqv hs (buildMux o (bitTarget n t level) children) (level - 1) n level
+    (by omega) hn).2.1 k hk
+
+/-- Non-vacuity: for `[A, B, A, B]` at `n = level = 3` control wire 2 is dropped, the kept indices
+are `[0, 1]`, the kept control 1 sits at position 0 of the carried diagonal, and the control value
+`k = 3` is read as entry `1` of the shortened list. -/
+example :
+    let mux : Nat → Mat2 Nat := fun k => if k % 2 = 0 then ⟨1, 0, 0, 1⟩ else ⟨2, 0, 0, 1⟩
+    let s := simplify c12ExEqv mux 4 3 3
+    s.1 = [2] ∧ s.2 = [0, 1] ∧ keptControls (ctrlTarg 3 3).1 s.1 = [1]
+      ∧ ctrlQc 3 (s.1.length + (keptControls (ctrlTarg 3 3).1 s.1).length)
+          (keptControls (ctrlTarg 3 3).1 s.1) = [0]
+      ∧ gather [0] 3 = 1 := by decide
 
 end Qclib
